@@ -145,3 +145,46 @@ void h_C14_make_task_vtodo(void)
 	}
 	SENTINEL("make_task vtodo");
 }
+
+/* several EXDATE (RDATE) property lines of one VEVENT: every line's dates end up
+ * in the event's exception (addition) list - RFC 5545 allows the property to
+ * occur more than once.  dt_strp is a stub handing out symbolic instants in
+ * order (the text form itself: C18); the list splitting at ',' is the real code */
+static echs_instant_t g_dt[4];
+static unsigned g_ndt;
+echs_instant_t dt_strp(const char *str, char **on, size_t len)
+{
+	if (on != NULL) {
+		*on = (char*)str + len;
+	}
+	return g_dt[g_ndt++ & 3U];
+}
+
+void h_C02_date_lines(void)
+{
+	static struct ical_vevent_s ve;
+	static const char l1[] = ":1,2";	/* placeholder text: two values */
+	static const char l2[] = ":3";		/* one value */
+	IN(uint64_t, d0); IN(uint64_t, d1); IN(uint64_t, d2);
+	IN_BOOL(rd);
+	const ical_fld_t fld = rd ? FLD_RDATE : FLD_XDATE;
+	memset(&ve, 0, sizeof(ve));
+	g_dt[0].u = d0, g_dt[1].u = d1, g_dt[2].u = d2, g_dt[3].u = 0U;
+	g_ndt = 0U;
+	__CPROVER_assume(!echs_instant_0_p(g_dt[0]) && !echs_instant_0_p(g_dt[1]) && !echs_instant_0_p(g_dt[2]));
+	(void)snarf_fld(&ve, fld, l1, l1 + 1, l1 + 4);
+	(void)snarf_fld(&ve, fld, l2, l2 + 1, l2 + 2);
+	const struct dtlst_s *t = rd ? &ve.rdat : &ve.xdat;
+	const struct dtlst_s *o = rd ? &ve.xdat : &ve.rdat;
+	ASSERT(g_ndt == 3U, "every value of every line is read once");
+	ASSERT(t->ndt == 3U, "two EXDATE (RDATE) lines with 2 + 1 values: the event's list holds all 3");
+	if (t->ndt == 3U) {
+		IN_RANGE(unsigned, w, 0, 2);
+		if (w < 3U) {
+			const echs_instant_t want = echs_instant_attach_scale(echs_instant_attach_tzob(g_dt[w], 0U), SCALE_GREGORIAN);
+			ASSERT(t->dt[w].u == want.u, "each value is held as read, in the order of the lines");
+		}
+	}
+	ASSERT(o->ndt == 0U && o->dt == NULL, "the other list (RDATE vs EXDATE) is untouched");
+	SENTINEL("date lines");
+}
